@@ -2629,11 +2629,9 @@ void strip_leading_whitespace(token * chain, const char * source) {
 
 void trim_trailing_whitespace_d_string(DString * d) {
 	if (d) {
-		char * c = &(d->str[d->currentStringLength - 1]);
-
-		while (d->currentStringLength && char_is_whitespace(*c)) {
-			*c-- = 0;
+		while (d->currentStringLength && char_is_whitespace(d->str[d->currentStringLength - 1])) {
 			d->currentStringLength--;
+			d->str[d->currentStringLength] = 0;
 		}
 	}
 }
